@@ -92,11 +92,24 @@ def _check_align(case):
     tg.addTier(PT("ref", [(t, "r") for t in ref], 0, 2))
     tg.addTier(PT("p", list(D.labelled_points(pts)), 0, 2))
     orig = {t.name: canon(t) for t in tg.tiers}
-    st, r, _ = call(praatio_scripts.alignBoundariesAcrossTiers, tg.new(), "ref", md)
+    tgc = tg.new()
+    st, r, _ = call(praatio_scripts.alignBoundariesAcrossTiers, tgc, "ref", md)
     tag = f"alignBoundariesAcrossTiers(ref={ref}, {md}) on a={s1} p={pts}"
     if st == "exc":
         if isinstance(r, PE) or not ref:
-            return 1, "raised", None, []
+            # the call works on the caller's textgrid tier by tier; when one tier cannot be adjusted the textgrid still holds every tier, in
+            # order, each with its entry count and labels ("entry count, order and labels never change"), and the reference tier as it was
+            viols = []
+            if tuple(tgc.tierNames) != ("a", "ref", "p"):
+                viols.append(Viol("align-failed-and-lost-tiers", f"{tag} raised {type(r).__name__}; the textgrid now holds {tuple(tgc.tierNames)}"))
+            else:
+                if canon(tgc.getTier("ref")) != orig["ref"]:
+                    viols.append(Viol("align-reference-changed", f"{tag} raised {type(r).__name__}; the reference tier changed"))
+                for nm in ("a", "p"):
+                    got = ents(tgc.getTier(nm))
+                    if [g[-1] for g in got] != [e[-1] for e in orig[nm][4]]:
+                        viols.append(Viol("align-failed-and-changed-labels", f"{tag} raised {type(r).__name__}; tier {nm} now {got}, was {orig[nm][4]}"))
+            return 1, "raised", None, viols
         return 1, "X", None, [Viol("align-raised:" + type(r).__name__, f"{tag}: {r!r}")]
     viols = []
     if tuple(r.tierNames) != ("a", "ref", "p"):
